@@ -1,6 +1,6 @@
 (* C04 — each operator application is emitted once, in the innermost enclosing scope.  Property theorems only. *)
 From Coq Require Import List String NArith Arith Bool.
-From Spox Require Import Base IR Show Build Sem Plan Validate BuildFacts SemFacts DfsFacts ScopeFacts EmitFacts ReachFacts DiscoverFacts CoverageFacts.
+From Spox Require Import Base IR Show Build Sem Plan Validate BuildFacts SemFacts DfsFacts ScopeFacts EmitFacts ReachFacts DiscoverFacts CoverageFacts LcaFacts PlacementFacts.
 Import ListNotations.
 
 (* The source nodes of all emitted nodes (all nested graphs) are duplicate-free and are exactly the non-argument nodes on which
@@ -152,3 +152,29 @@ Theorem C04_every_reachable_node_is_owned_on_a_chain_from_the_main_graph :
   forall u, In u (topo_of p main) -> exists h, Path p (own_of_def p d main) main h /\ In u (own_of_def p d main h).
 Proof. exact every_reachable_node_is_owned_on_a_chain. Qed.
 Print Assumptions C04_every_reachable_node_is_owned_on_a_chain_from_the_main_graph.
+
+(* ScopeTree.lca, the alternating-ancestor walk: on ANY parent function, for two start nodes whose ancestor chains meet within the
+   fuel, the node returned is a common ancestor of both, and every common ancestor of both is an ancestor-or-self of it. *)
+Theorem C04_alternating_walk_returns_the_lowest_common_ancestor :
+  forall own sc a b fuel i j, let par := parent own sc in
+  up par i a = up par j b -> 2 * Nat.max i j + 1 < fuel ->
+  let r := lca fuel own sc a b [a] [b] in
+  (exists i' j', r = up par i' a /\ r = up par j' b) /\ (forall i' j', up par i' a = up par j' b -> exists m, up par i' a = up par m r).
+Proof. exact lca_correct. Qed.
+Print Assumptions C04_alternating_walk_returns_the_lowest_common_ancestor.
+
+(* "A value is defined in the innermost graph that encloses all of its uses", by construction (no validator): after the scope
+   resolution of build_main - the incremental relaxation over the discovered graphs, parents first, on a scope tree that is being
+   built at the same time - the graph [s] a node [u] is assigned to (the GraphProto that holds it, C04_graph_holds_exactly_its_own_nodes)
+   is the LOWEST COMMON ANCESTOR, in the FINAL scope tree ([Anc c h]: c is reached from h by going to the graph that holds the node
+   carrying h, repeatedly), of all graphs whose traversal contains u: it encloses each of them, and every graph that encloses all of
+   them encloses it.  Premise: the reflected object graph is acyclic within the builder's fuel (evaluated on every program). *)
+Theorem C04_placement_is_the_lowest_common_ancestor_by_construction :
+  forall p (rank : nref -> nat), (forall u v, In v (full_adj p u) -> rank v < rank u) -> (forall u, rank u < fuel_of p) ->
+  forall main d, discover (fuel_of p) p dstate0 main = inl d ->
+  forall u s, lookup nref_eqb u (scopes_of p d) = Some s ->
+    (forall E, In E (d_post d) -> In u (trav p E) -> Anc p d s E) /\
+    (forall c, (forall E, In E (d_post d) -> In u (trav p E) -> Anc p d c E) -> Anc p d c s) /\
+    (exists E, In E (d_post d) /\ In u (trav p E)).
+Proof. exact placement_is_lowest_common_ancestor. Qed.
+Print Assumptions C04_placement_is_the_lowest_common_ancestor_by_construction.
